@@ -10,8 +10,11 @@ Lemma fault_reported_or_complete : forall ev f ft, ft <> FErrRoot ->
 Proof.
   intros ev f ft H. unfold walk_faulty, walk_under_fault.
   change c06_ctx_err_returned with true.
-  destruct ft as [|k|k|]; try (left; reflexivity); [|contradiction].
-  destruct (k <? List.length (walk ev f))%nat; [left | right]; reflexivity.
+  destruct ft as [|k|k|].
+  - left; reflexivity.
+  - destruct (k <? List.length (walk ev f))%nat; [left | right]; reflexivity.
+  - left; reflexivity.
+  - contradiction.
 Qed.
 
 Definition w_one : forest := [("f", File m0 (LReg 1 1) None)].
